@@ -55,7 +55,7 @@ impl GenIn for Ind {
     fn gen(g: &mut SplitMix) -> Self { Ind::new(V::gen(g), V::gen(g)) }
 }
 
-fn leak<T>(x: T) -> &'static mut T { Box::leak(Box::new(x)) }
+pub fn leak<T>(x: T) -> &'static mut T { Box::leak(Box::new(x)) }
 
 /// shape term -> the real ec-core value.  Every combinator is built through the public surface
 /// (`Composable::{then, and, map, then_map, apply_twice, apply_n_times, wrap}`, the wrappers' `new`).
@@ -83,6 +83,8 @@ macro_rules! op {
     ((scorer $gm:tt $c:literal)) => { GenomeScorer::new(op!($gm), FnScorer(score_c::<$c>)) };
     ((wrapscorer $gm:tt $c:literal)) => { op!($gm).wrap::<GenomeScorer<_, _>>(FnScorer(score_c::<$c>)) };
 }
+
+pub(crate) use op;
 
 type ShapeFn = Box<dyn Fn(&mut Ctx) + Sync>;
 
